@@ -98,6 +98,17 @@ def run(prop: str, tier: str, seed: int, replay: str | None, scratch: str) -> in
                 broken.append(f"{n}: axioms {a['axioms']}")
             else:
                 ctx.discharged.append(n)
+        if tier == "thorough":
+            # independent re-check of the compiled property module by the toolchain's separate checker
+            import subprocess
+            try:
+                lc = subprocess.run(["lake", "env", "leanchecker", mod.LEAN_MODULE], cwd=LEAN, capture_output=True,
+                                    text=True, timeout=1800)
+                ctx.audit["_leanchecker"] = {"kind": "leanchecker", "axioms": [], "rc": lc.returncode}
+                if lc.returncode != 0:
+                    broken.append("leanchecker rejects the property module: " + (lc.stdout + lc.stderr)[-300:])
+            except subprocess.TimeoutExpired:
+                raise InfraError("leanchecker timed out")
     else:
         broken.append("lake build failed")
 
@@ -177,7 +188,8 @@ def run(prop: str, tier: str, seed: int, replay: str | None, scratch: str) -> in
         "discharged": len(ctx.discharged),
         "checker_cmd": f"cd lean && lake build {mod.LEAN_MODULE} && lake env lean .audit/Audit{prop}.lean",
         "trusted_base": TRUSTED_BASE + list(getattr(mod, "TRUSTED_EXTRA", [])),
-        "theorems": {k: v.get("axioms", []) for k, v in ctx.audit.items()},
+        "theorems": {k: v.get("axioms", []) for k, v in ctx.audit.items() if not k.startswith("_")},
+        "leanchecker": ctx.audit.get("_leanchecker", {}).get("rc", "not run (thorough tier only)"),
         "evaluations": st.evaluations,
         "distinct_nontrivial": len(st.nontrivial),
         "rule": getattr(mod, "RULE", ""),
